@@ -68,3 +68,38 @@ Example C03_element_sum_example :
   map (fun rc => element_sum Z Z.add 0 1 [[0; 1]; [1; 2]] 2 exK (fst rc) (snd rc)) [(0,0); (0,1); (1,0); (1,1); (1,2); (2,1); (2,2); (0,2)]
   = [1; 2; 3; 14; 20; 30; 40; 0].
 Proof. split; vm_compute; reflexivity. Qed.
+
+(* T10': several groups.  `ts` lists, in dict order, the groups that CONTRIBUTE to a slot (those whose entry is not None:
+   what `dict_groups` / `dict_data` of C03_assemble_csr_correct keep) with their block size and logical element array:
+   the assembled matrix is the sum over the contributing groups of their element sums -- a group that is absent for this
+   slot contributes nothing, a group present in K but absent in M changes K only. *)
+Theorem C03_assembly_is_sum_over_groups_of_element_matrices :
+  forall (V : Type) (vadd : V -> V -> V) (vzero : V),
+  (forall a b, vadd a b = vadd b a) -> (forall a b c, vadd a (vadd b c) = vadd (vadd a b) c) -> (forall a, vadd vzero a = a) ->
+  forall Nn dof_n Ndof (ts : list (gspec V)) r c,
+  0 < dof_n -> Nn * dof_n <= Ndof ->
+  (forall t, In t ts -> nodes_ok Nn (fst (fst t)) /\ gs_ok V dof_n t) ->
+  0 <= r < Ndof -> 0 <= c < Ndof ->
+  let rc := rows_cols dof_n true (map (fun t => fst (fst t)) ts) in
+  csr_get V vadd vzero (assemble_with V vadd vzero (get_csr_map true Ndof (fst rc) (snd rc)) (flat_map (fun t => ravelC V (snd t)) ts)) r c
+  = vsum V vadd vzero (map (fun t => element_sum V vadd vzero dof_n (fst (fst t)) (snd (fst t)) (snd t) r c) ts).
+Proof.
+  intros V vadd vzero Hc Ha H0 Nn dof_n Ndof ts r c Hd HN Hok Hr Hcc rc.
+  unfold rc. rewrite (csr_refines_dense V vadd vzero Hc Ha H0 true Ndof); try assumption.
+  - apply (dense_sum_is_sum_over_groups V vadd vzero Ha H0). intros t Ht. now apply Hok.
+  - apply (rows_cols_range Nn dof_n true Ndof); try assumption.
+    intros g Hg. apply in_map_iff in Hg. destruct Hg as (t & <- & Ht). now apply Hok.
+Qed.
+Print Assumptions C03_assembly_is_sum_over_groups_of_element_matrices.
+
+(* non-vacuity: a SEG2 group (2 elements) and a POINT group (1 element) contributing to the same slot *)
+Definition exP : sarr Z := {| n0 := 1; n1 := 1; n2 := 1; s0 := 1; s1 := 1; s2 := 1; off := 0; buf := fun _ => 100 |}.
+Example C03_groups_example :
+  let ts : list (gspec Z) := [([[0; 1]; [1; 2]], 2%nat, exK); ([[1]], 1%nat, exP)] in
+  (forall t, In t ts -> nodes_ok 3 (fst (fst t)) /\ gs_ok Z 1 t) /\
+  vsum Z Z.add 0 (map (fun t => element_sum Z Z.add 0 1 (fst (fst t)) (snd (fst t)) (snd t) 1 1) ts) = 114.
+Proof.
+  split; [|vm_compute; reflexivity].
+  intros t [<-|[<-|[]]]; (split; [intros conn n Hc Hn; simpl in Hc; repeat (destruct Hc as [<-|Hc]; [simpl in Hn; intuition lia|]); contradiction|]);
+  (split; [intros conn Hc; simpl in Hc; repeat (destruct Hc as [<-|Hc]; [reflexivity|]); contradiction|repeat split]).
+Qed.
